@@ -56,6 +56,9 @@ var paramSets = [][][2]string{
 	{{"a", "col_a"}, {"k", "$2"}, {"x", "$1"}, {"y", "$3"}},
 	{{"true", "1"}, {"count", "c"}},
 	{{"T", "other_table"}, {"s", "'it''s'"}},
+	// many entries: map growth, iteration order, anything sized for "a few parameters"
+	{{"a", "$1"}, {"b", "$2"}, {"c", "$3"}, {"k", "$4"}, {"lim", "$5"}, {"m", "$6"}, {"n", "$7"}, {"s", "$8"}, {"x", "$9"}, {"y", "$10"}, {"z", "$11"}, {"total", "$12"}, {"cnt", "$13"}, {"State", "$14"}, {"EventType", "$15"}, {"p16", "$16"}, {"p17", "$17"}, {"p18", "$18"}},
+	{{"x", ""}, {"y", " "}, {"n", "(1)"}, {"s", "'; --"}, {"lim", "n"}, {"a", "x"}, {"true", "false"}, {"null", "0"}, {"now", "then"}},
 }
 
 // curated sources: every built-in, unknown functions, join kinds, keywords, failures at each stage.
